@@ -87,6 +87,12 @@ package x509
 //@ at m assert [preissuer-issuer-name-replaced] preIssuer != nil ==> out.Issuer.FullBytes == preIssuer.RawIssuer && out.Raw == nil
 //@ at m assert [preissuer-other-fields-untouched] preIssuer != nil ==> out.Version == after(um, tbs.Version) && out.SerialNumber == after(um, tbs.SerialNumber) && out.SignatureAlgorithm == after(um, tbs.SignatureAlgorithm) && out.Validity == after(um, tbs.Validity) && out.Subject == after(um, tbs.Subject) && out.PublicKey == after(um, tbs.PublicKey) && out.UniqueId == after(um, tbs.UniqueId) && out.SubjectUniqueId == after(um, tbs.SubjectUniqueId)
 
+//@ func (*Certificate).IsPrecertificate
+//@ props C05 C03
+//@ arith int
+//@ pure
+//@ ensures [no-certificate-no-poison] c == nil ==> !result
+
 //@ func RemoveCTPoison
 //@ props C03
 //@ pure
